@@ -6,6 +6,7 @@ import (
 
 	"github.com/cronokirby/saferith"
 	"github.com/fxamacker/cbor/v2"
+	"github.com/taurusgroup/multi-party-sig/internal/safecbor"
 	"github.com/taurusgroup/multi-party-sig/pkg/math/curve"
 )
 
@@ -92,7 +93,7 @@ func (m *PointMap) UnmarshalBinary(data []byte) error {
 	m.Points = make(map[ID]curve.Point, len(pointBytes))
 	for k, v := range pointBytes {
 		point := m.group.NewPoint()
-		if err := cbor.Unmarshal(v, point); err != nil {
+		if err := safecbor.Unmarshal(v, point); err != nil {
 			return err
 		}
 		m.Points[k] = point
